@@ -50,7 +50,7 @@ def patch_connection():
 
         def w(self, *a, **k):
             s = sched.S
-            if s is None or s.finished:
+            if s is None or s.finished or getattr(self, "_verif_mute", False):
                 return orig(self, *a, **k)
             role = s.cur.role if s.cur else "?"
             ev = s.emit("call", op=opf(self, *a, **k), ctx=f"api@{role}" + ("-final" if getattr(self, "_verif_final", False) else ""))
@@ -179,6 +179,8 @@ class ApiSession:
                 elif op[0] == "close":
                     ev = api.emit("api_call", op="close")
                     exc = None
+                    if a._connection is not None and op[-1] == "final":
+                        a._connection._verif_final = True
                     try:
                         a.close()
                     except BaseException as e:  # noqa: BLE001
@@ -186,6 +188,23 @@ class ApiSession:
                     api.emit("api_ret", call=ev["seq"], op="close", exc=type(exc).__name__ if exc else None, state=self.dump_api(a), conn_none=a._connection is None)
                 elif op[0] == "dump":
                     api.emit("api_state", state=self.dump_api(a))
+                elif op[0] == "send_raw":
+                    # the typed API's raw entry point: recorded as the caller's submission (the connection-level call underneath is not
+                    # recorded separately, so that what was SUBMITTED is compared with the wire)
+                    ev = api.emit("call", op=["raw", op[1]], ctx="U0")
+                    exc = None
+                    if a._connection is not None:
+                        a._connection._verif_mute = True
+                    try:
+                        a.send_raw(op[1])
+                    except sched.Hang:
+                        raise
+                    except BaseException as e:  # noqa: BLE001
+                        exc = e
+                    finally:
+                        if a._connection is not None:
+                            a._connection._verif_mute = False
+                    api.emit("ret", call=ev["seq"], op=["raw", op[1]], ctx="U0", exc=type(exc).__name__ if exc else None, msg=str(exc)[:200] if exc else None, res=None)
             api.sleep(spec.get("final_wait", 6))
         elif kind == "conn_check":
             a = ynca.YncaApi("virtual://port", (lambda: (api.emit("disc_cb"), api.emit("disc_cb_ret"))) if spec.get("disconnect_cb", True) else None, spec.get("log_size", 0))
